@@ -198,6 +198,40 @@ Theorem task_tolerance_by_kind_only {A} (tf tg : A) (history : list run_kind) k 
 Proof. exact (last_run_tol_lemma tf tg history k). Qed.
 Print Assumptions task_tolerance_by_kind_only.
 
+(* Histories of operations on ONE simulation (compute, clean('keepresults'),
+   clean('computed'), get_efield, jvec, jtvec, gradient, misfit), with the forward
+   tasks that jvec / jtvec / gradient / misfit / get_efield compute ON DEMAND for
+   fields dropped earlier, the tolerance being read from the SHARED solver options:
+   if every collector writes the tolerance of its own kind right before it hands
+   its task over, then for EVERY history, every initial state and register value,
+   with or without a wrapper that sets the register around the adjoint stages,
+   every forward task carries tol and every back-propagation / jvec task carries
+   tol_gradient. *)
+Theorem history_tasks_tolerance_own_writes {A} (tf tg : A) (tw : tol_writes) (wrap : bool) :
+  (forall k, tw k = TWrite k) ->
+  forall ops st reg, Forall (task_ok tf tg) (run_hist tf tg tw wrap st reg ops).
+Proof. exact (run_hist_ok tf tg tw wrap). Qed.
+Print Assumptions history_tasks_tolerance_own_writes.
+
+Example ex_history_nested_forward :
+  run_hist 7 3 (fun k => TWrite k) true (mkHS [false; false] false) 7
+           [HCompute; HCleanKeep; HJvec]
+  = [(KForward, 0, 7); (KForward, 1, 7);
+     (KForward, 0, 7); (KJvec, 0, 3); (KForward, 1, 7); (KJvec, 1, 3)].
+Proof. exact ex_run_hist_nested. Qed.
+Print Assumptions ex_history_nested_forward.
+
+(* Collectors that trust the register, the adjoint stages setting it on entry and
+   restoring it on exit: compute -> clean('keepresults') -> jvec solves the dropped
+   forward field of slot 0 with tol_gradient (witness replayed on the implementation
+   by the operation-history stream of py/props/c11.py: must NOT reproduce). *)
+Theorem trusting_collectors_wrapped_refuted :
+  exists ops : list hop,
+    In (KForward, 0, 3) (run_hist 7 3 trusting true (mkHS [false; false] false) 7 ops)
+    /\ ~ task_ok 7 3 (KForward, 0, 3).
+Proof. exact trusting_wrapped_refuted_lemma. Qed.
+Print Assumptions trusting_collectors_wrapped_refuted.
+
 (* ------------------------------------------------------------------ *)
 (* Tie to the CURRENT emg3d source (Gen/MpShape.v)                      *)
 (* ------------------------------------------------------------------ *)
@@ -278,6 +312,14 @@ Proof.
                                                    k' k Hw Hw Hs' Hs Hf' Hf E)))).
 Qed.
 Print Assumptions on_demand_other_files_untouched.
+
+(* the collectors of the CURRENT source (extracted: the statement before
+   `return self._data_or_file(...)`) write the tolerance of their own kind of run,
+   hence, for every history of operations, every task carries the tolerance of its kind *)
+Theorem history_tasks_tolerance {A} (tf tg : A) (wrap : bool) ops st reg :
+  Forall (task_ok tf tg) (run_hist tf tg collector_tol_writes wrap st reg ops).
+Proof. exact (history_tasks_tolerance_lemma tf tg wrap ops st reg). Qed.
+Print Assumptions history_tasks_tolerance.
 
 (* the on-demand call chain carries the (source, frequency) of the slot read back *)
 Theorem ondemand_keys_positional : ondemand_keys_ok = true.
